@@ -84,6 +84,7 @@ type Pipe struct {
 	lost     bool
 
 	CloseBehaviour string // eof | err | stay : what a blocked/later Read does after Close
+	CloseErr       error  // returned by Close (which closes all the same): "connection reset by peer" and the like
 	opened         bool
 	closed         bool
 	Closes         int
@@ -204,7 +205,8 @@ func (p *Pipe) Close() error {
 	p.ev("close", nil)
 	p.cond.Broadcast()
 
-	return nil
+	// the connection is closed either way; CloseErr is what the operating system had to say about it
+	return p.CloseErr
 }
 
 // IsAlive implements transport.Implementation.
